@@ -14,7 +14,7 @@ CHECKS = {
          "DESIGN.md#c11"),
  "C18": ("H", "model_checking",
          "explicit-state BFS over operation histories of the real MerkleBlob with exact state keys, map + independent root recomputation as reference",
-         "Every operation sequence up to depth 6 over 3 keys (quick) / 4 keys (thorough) from the alphabet {insert at Auto/AsRoot/every block index and side, insert/upsert with a hash owned by another key, upsert, delete, every batch of <=2 (quick) / <=3 (thorough) entries, calculate_lazy_hashes, reload} is applied to the real blob; states are deduplicated on (blob bytes, free-list order). Transition oracle: Ok => contents equal the plain map after the op, Err => bytes/free list/contents unchanged, no panic. State invariant: check_integrity, reload equivalence, root == own bottom-up recomputation, every key has a proof that folds (own SHA-256) to the root.",
+         "Every operation sequence up to depth 5 over 3 keys (quick) / depth 6 over 4 keys (thorough) from the alphabet {insert at Auto/AsRoot/every block index and side, insert/upsert with a hash owned by another key, upsert, delete, every batch of <=2 (quick) / <=3 (thorough) entries, calculate_lazy_hashes, reload} is applied to the real blob; states are deduplicated on (blob bytes, free-list order). Transition oracle: Ok => contents equal the plain map after the op, Err => bytes/free list/contents unchanged, no panic. State invariant: check_integrity, reload equivalence, root == own bottom-up recomputation, every key has a proof that folds (own SHA-256) to the root.",
          "trusts: hook H3 (free-list order), get_node/get_keys_values as observation of contents; Err is accepted for any operation as long as nothing changed (the property does not say which operations must succeed)",
          "DESIGN.md#c18"),
  "C15": ("S", "model_checking",
@@ -52,6 +52,11 @@ CHECKS = {
          "For 24 (quick) / 72 (thorough) keys incl. boundary scalars 0,1,2,3,r-1,r-2,(r+-1)/2, every unhardened path of length <=2/<=3 over 6 boundary indices, every ordered key pair, up to 16 hidden puzzle hashes, 6 messages and ~130k (quick) / ~360k (thorough) systematically perturbed 48/96-byte strings (every single-byte substitution of valid encodings, all flag combinations, non-reduced coordinates, non-canonical infinities, small-x on-curve non-subgroup points) plus 105k secret-key and mod-r strings: the real parsers accept exactly what the harness's own num-bigint model says (canonical encoding, on curve, r*P=O, infinity allowed), unchecked parsing accepts a superset and re-encodes identically, and both derivation routes agree with each other and with reference values.",
          "trusts: harness reference arithmetic (Fp/Fp2, Jacobian double-and-add, ZCash compressed format) re-validated at start-up on the blspy vectors quoted in the repo's unit tests; sha2 crate; blst scalar multiplication only as a cross-check",
          "DESIGN.md#c16"),
+ "C17": ("H", "model_checking",
+         "bounded-exhaustive input enumeration plus explicit-state BFS to fixpoint over the real TreeCache with exact-state dedup through hook H2",
+         "Every tree-hash routine (tree_hash, tree_hash_cached, tree_hash_from_bytes on plain and back-reference serialisations, TreeHasher, curry_tree_hash/CurriedProgram, and the puzzle hashes / coin ids reported by the five block consumers) returns the definitional SHA-256 tree hash for every atom in both internal representations over a 211-leaf alphabet, every small-integer atom below 2^20 (quick) / 2^26 (thorough), every DAG of <=4/5 pairs over 3-4 leaf kinds, 10^5-deep and 10^5-long lists, 2^20-leaf DAGs and every currying of <=4 arguments over 8/12 values. For the shared memo cache the complete state graph is explored: every history of visit_tree / tree_hash_cached calls of any length on every DAG of <=3 (quick) / <=4 (thorough) pairs and on a fixed 9-pair DAG with pairs allocated between calls (BFS to fixpoint; 2.6e5 / 3.2e6 states), every transition's hash and every cache entry checked against the reference; larger DAGs by bounded sequences.",
+         "trusts: sha2 crate and mc::sx reference; clvmr 0.17.7 allocator and serialisers (leaf bytes read back, compressed forms re-parsed before blaming /repo); hook H2 TreeCache::verif_state as exact state key; one append-only allocator per cache",
+         "DESIGN.md#c17"),
 }
 
 PENDING_REASON = "check not built yet in this round (planned: see DESIGN.md section for this property); not claimed until it runs"
